@@ -325,13 +325,19 @@ def _model(name):
     pool = [{'x': rs.randn(24, 24, 3).astype(np.float32), 'y': np.int32(i)} for i in range(3)]
   elif name == 'shakespeare_lstm':
     m = shakespeare.create_lstm_model(lstm_hidden_size=8, embed_size=4, lstm_num_layers=2)
-    pool = [{'x': rs.randint(0, 90, size=(5,)).astype(np.int32), 'y': rs.randint(0, 90, size=(5,)).astype(np.int32)}
+    pool = [{'x': rs.randint(3, 90, size=(5,)).astype(np.int32), 'y': rs.randint(3, 90, size=(5,)).astype(np.int32)}
             for _ in range(3)]
+    for r, npad in ((1, 2), (2, 4)):   # rows with trailing padding (PAD = 0): batches made only of padded rows occur
+      pool[r]['x'][5 - npad:] = 0
+      pool[r]['y'][5 - npad:] = 0
   else:
     m = stackoverflow.create_lstm_model(vocab_size=10, lstm_hidden_size=8, embed_size=4,
                                         share_input_output_embeddings=name.endswith('shared'))
-    pool = [{'x': rs.randint(0, 14, size=(4,)).astype(np.int32), 'y': rs.randint(0, 14, size=(4,)).astype(np.int32)}
+    pool = [{'x': rs.randint(3, 14, size=(4,)).astype(np.int32), 'y': rs.randint(3, 14, size=(4,)).astype(np.int32)}
             for _ in range(3)]
+    for r, npad in ((1, 1), (2, 3)):
+      pool[r]['x'][4 - npad:] = 0
+      pool[r]['y'][4 - npad:] = 0
   params = m.init(jax.random.PRNGKey(0))
   _CACHE[('m', name)] = (m, params, pool)
   return _CACHE[('m', name)]
@@ -341,7 +347,10 @@ def row_independence(case):
   """Every batch of <=3 rows with repetition: row i of apply_for_eval == the singleton-batch output."""
   name = case['model']
   m, params, pool = _model(name)
-  single = [np.asarray(m.apply_for_eval(params, {k: np.asarray(v)[None] for k, v in e.items()}))[0] for e in pool]
+  one = lambda e: {k: np.asarray(v)[None] for k, v in e.items()}
+  single = [np.asarray(m.apply_for_eval(params, one(e)))[0] for e in pool]
+  # the per-example training loss of a row, computed with the row alone in the batch
+  single_loss = [float(np.asarray(m.train_loss(one(e), m.apply_for_eval(params, one(e))))[0]) for e in pool]
   evals = 0
   for n in (1, 2, 3):
     for idxs in itertools.product(range(3), repeat=n):
@@ -353,6 +362,12 @@ def row_independence(case):
         require(bool(np.allclose(out[r], single[i], rtol=1e-4, atol=1e-5)), 'model %s: the score of a row depends on the other '
                 'rows in the batch' % name, single[i].reshape(-1)[:5].tolist(), out[r].reshape(-1)[:5].tolist(),
                 case=dict(case, rows=list(idxs)))
+      loss = np.asarray(m.train_loss(batch, out))
+      require(loss.shape == (n,), 'model %s: train_loss is not one value per row' % name, [n], list(loss.shape),
+              case=dict(case, rows=list(idxs)))
+      for r, i in enumerate(idxs):
+        require(abs(float(loss[r]) - single_loss[i]) <= 1e-4 * (1 + abs(single_loss[i])), 'model %s: the training loss of a row '
+                'depends on the other rows in the batch' % name, single_loss[i], float(loss[r]), case=dict(case, rows=list(idxs)))
       evals += 1
   return {'evals': evals, 'nontrivial': True, 'outcome': name}
 
